@@ -143,8 +143,18 @@ def gen_request(rng, objs):
     order = None
     if rng.random() < 0.45:
         cands = ["timestamp", "stationId", "application_id", "timeValidity", "latitude"]
+        # attributes that every selected object has, but at a path that depends on the message type
+        if set(types) <= {1, 2, 16}:
+            cands += ["stationType", "stationType"]
+        if set(types) <= {2, 16}:
+            cands += ["generationDeltaTime", "generationDeltaTime"]
+        cands = sorted(set(cands), key=cands.index) + [c_ for c_ in ("stationType", "generationDeltaTime") if cands.count(c_) > 1]
         k = rng.randrange(1, 4)
-        order = [{"attr": a, "desc": rng.random() < 0.5} for a in rng.sample(cands, k)]
+        picked = []
+        for a in rng.sample(cands, min(k, len(cands))):
+            if a not in picked:
+                picked.append(a)
+        order = [{"attr": a, "desc": rng.random() < 0.5} for a in picked]
     return {"types": list(types), "filter": flt, "order": order}
 
 
